@@ -605,8 +605,10 @@ def lspStep (st : DState) (op : String) (f : List Text) : Option (DState × Stri
     let (s2, msgs) := ConfigM.startUp st.srv st.answer regs
     some ({ st with srv := s2 }, outLine ("cfgreq" :: msgs.map msgStr) s2)
   | "ml.edit", uri :: npk :: rest =>
-    let (pkgs, _) := parsePkgs (natOfText npk) rest
-    let (s', msgs) := Server.edit st.srv uri pkgs
+    let (pkgs, more) := parsePkgs (natOfText npk) rest
+    -- an optional last field: the document text (needed by code actions only)
+    let content : Text := match more with | [c] => c | _ => []
+    let (s', msgs) := Server.edit st.srv uri pkgs content
     some ({ st with srv := s' }, outLine (msgs.map msgStr) s')
   | "ml.close", [uri] => let s' := Server.close st.srv uri; some ({ st with srv := s' }, outLine [] s')
   | "ml.action", [uri, line, ch] =>
